@@ -32,6 +32,8 @@ def successful_cond(prog: Program, reply: T.Term) -> T.Term:
 
 
 def run(prog: Program, rep: Report, tier: str) -> None:
+    from ..api_model import sign_summary_premise
+    sign_summary_premise(prog, rep)
     rep.rule("R9.1", "escape set: whatever bytes the replies hold, the only exception class that can leave a state query is RuntimeError", 3)
     rep.rule("R9.2", "every normal return of a state query returns the response object parsed from the state reply (get_state additionally only when it is 'successful')", 3)
     rep.rule("R9.3", "SwitcherBaseResponse.successful == (reply is not None and len(reply) > 0), not overridden by any subclass", 2)
